@@ -141,9 +141,28 @@ func (c *Channel) Deliver(out, x []byte) ([]byte, error) {
 	now := time.Now()
 	var appData []byte
 	if err := c.doThenSend(func() ([]byte, error) {
-		for i, se := range c.sessions {
+		// An InitHello opens a handshake of its own: only the session created from
+		// this very message may answer it (a retransmission).  Any other session
+		// would take it for a duplicate of its own peer's message and answer with a
+		// stale handshake message instead of letting the new session be created.
+		isHello := IsInitHello(x)
+		var helloID [32]byte
+		if isHello {
+			helloID = blake2b.Sum256(x)
+		}
+		// Handshake messages are offered to the prospective session first: an
+		// established session takes any handshake message of the right parity for
+		// a retransmission and would answer it before the handshake in progress
+		// ever saw it.
+		sessions := c.sessions
+		order := [3]int{0, 1, 2}
+		if msg, err := ParseMessage(x); err == nil && msg.GetNonce() < noncePostHandshake {
+			order = [3]int{2, 1, 0}
+		}
+		for _, i := range order {
+			se := sessions[i]
 			s := se.Session
-			if s == nil {
+			if s == nil || (isHello && se.ID != helloID) {
 				continue
 			}
 			readyBefore := s.IsReady()
